@@ -50,6 +50,10 @@ CORPUS = [
     ('cpp', ('a', 0, ('i', 14), ('b', 10, ('b', 8, ('m', 11, ('i', 6)), ('i', 0)), ('i', 1)))),
     ('cpp', ('a', 0, ('i', 14), ('g', ('i', 8), ('k', ('b', 8, ('m', 11, ('i', 6)), ('i', 0)), ('b', 10, ('i', 1), ('i', 2)))))),
     ('c', ('a', 0, ('i', 14), ('g', ('i', 8), ('k', ('b', 8, ('m', 11, ('i', 6)), ('i', 0)), ('b', 10, ('i', 1), ('i', 2)))))),
+    # ", ( ... ) =" : simplifyRedundantParentheses removes parentheses that are not redundant
+    ('cpp', ('g', ('i', 8), ('k', ('i', 1), ('a', 0, ('c', ('i', 2), ('i', 0), ('i', 3)), ('n', 2))))),
+    ('cpp', ('g', ('i', 8), ('k', ('i', 1), ('a', 0, ('a', 0, ('i', 0), ('i', 3)), ('n', 2))))),
+    ('cpp', ('g', ('i', 8), ('k', ('i', 1), ('a', 1, ('c', ('i', 2), ('i', 0), ('i', 3)), ('n', 2))))),
 ]
 
 
@@ -219,9 +223,26 @@ def judge(run, recs, stream_prefix=""):
     return prop, modl, thm
 
 
+def comma_paren_assign(strs):
+    """is there a  , ( ... ) =  in the token list"""
+    for i, x in enumerate(strs):
+        if x == "(" and i and strs[i - 1] == ",":
+            d = 0
+            for j in range(i, len(strs)):
+                d += strs[j] in ("(", "[")
+                d -= strs[j] in (")", "]")
+                if d == 0:
+                    if j + 1 < len(strs) and strs[j + 1] == "=":
+                        return True
+                    break
+    return False
+
+
 def key_of(rec):
     if rec.get("impl_linked_angle"):
         return "memberTemplateLink"
+    if comma_paren_assign(rec["strs"]) and not comma_paren_assign(rec.get("impl_strs", [])):
+        return "parenRemovedBeforeAssign"
     if rec["decl_like"]:
         return "skipDecl"
     return "tree:" + hashlib.sha1((rec["lang"] + rec["text"]).encode()).hexdigest()[:12]
@@ -229,7 +250,7 @@ def key_of(rec):
 
 def key_class(rec):
     k = key_of(rec)
-    return k if k in ("skipDecl", "memberTemplateLink") else "other"
+    return k if k in ("skipDecl", "memberTemplateLink", "parenRemovedBeforeAssign") else "other"
 
 
 def shrink(ev, rec, pred):
